@@ -10,6 +10,7 @@ import (
 	"archive/zip"
 	"bytes"
 	"context"
+	"errors"
 	"fmt"
 	"io"
 	"math/rand"
@@ -410,6 +411,71 @@ func vc45Delays(rng *rand.Rand, kind int) []int {
 	}
 }
 
+// vc45Guard runs one dump (fn) inside a synctest bubble under two watchdogs, so that code under
+// test that never returns cannot take the driver down:
+//   - virtual time: the bubble's clock only reaches the one-hour timer when every goroutine of the
+//     bubble is durably blocked with no earlier timer pending (the scripted load delays sum up to
+//     far less), i.e. when the dump can make no progress any more. The context is cancelled then;
+//     if that does not help either, the bubble is parked for good (its root goroutine waits on a
+//     channel from outside the bubble, which synctest does not regard as a deadlock) and leaked.
+//   - real time (livelocks): no outcome within vc45RealTimeout.
+//
+// noterm reports that the dump did not return by itself.
+const vc45RealTimeout = 45 * time.Second
+
+type vc45Outcome struct {
+	err    error
+	noterm bool
+}
+
+var vc45Park = make(chan struct{}) // never closed
+
+var vc45RealStuck int // dumps given up by the real-time watchdog (each costs vc45RealTimeout)
+
+func vc45Guard(t *testing.T, fn func(ctx context.Context) error) (error, bool) {
+	done := make(chan vc45Outcome, 4) // outside the bubble: sends never block
+	go func() {
+		synctest.Test(t, func(t *testing.T) {
+			ctx, cancel := context.WithCancel(context.Background())
+			defer cancel()
+			fin := make(chan error, 1)
+			go func() { fin <- fn(ctx) }()
+			select {
+			case err := <-fin:
+				done <- vc45Outcome{err, false}
+				return
+			case <-time.After(time.Hour):
+			}
+			cancel()
+			select {
+			case err := <-fin:
+				done <- vc45Outcome{err, true}
+				return
+			case <-time.After(time.Hour):
+			}
+			done <- vc45Outcome{errors.New("all goroutines of the dump are blocked for good, also after cancelling the context"), true}
+			<-vc45Park
+		})
+	}()
+	select {
+	case o := <-done:
+		return o.err, o.noterm
+	case <-time.After(vc45RealTimeout):
+		vc45RealStuck++
+		return fmt.Errorf("no return within %v of real time", vc45RealTimeout), true
+	}
+}
+
+// vc45Conns: the first trees go through all connection counts for every format, then random.
+func vc45Conns(rng *rand.Rand, ti, shift int) uint {
+	all := []uint{1, 2, 3, 5}
+	c := all[rng.Intn(4)]
+	if ti < 8 {
+		c = all[(ti+shift)%4]
+	}
+	return c
+}
+
 func TestVerif_C45(t *testing.T) {
 	res := kit.NewResult("one case = one dump (tar | zip of a generated directory tree, or a single file) by the real Dumper under one scripted blob completion order; distinct by (tree, format, root path, connections, delay script); non-trivial when the dumped item has a file of >= 2 blobs")
 	recs := kit.NewNDJSON("recs.ndjson")
@@ -423,7 +489,8 @@ func TestVerif_C45(t *testing.T) {
 	ntrees := kit.Pick(220, 9000)
 	roots := []string{"/", "/d1/d2", "/x"}
 	maxPar := 0
-	for ti := 0; ti < ntrees; ti++ {
+	stuck := 0
+	for ti := 0; ti < ntrees && vc45RealStuck < 3; ti++ {
 		budget := 2 + rng.Intn(13)
 		topSpecial := ti%12 == 7
 		top := vc45Gen(rng, 0, &budget, len(vc45BlobSizes), false)
@@ -464,27 +531,31 @@ func TestVerif_C45(t *testing.T) {
 		if prefix != "" {
 			prefix += "/"
 		}
-		for _, format := range []string{"tar", "zip"} {
-			conns := []uint{1, 2, 3, 5}[rng.Intn(4)]
+		for fi, format := range []string{"tar", "zip"} {
+			conns := vc45Conns(rng, ti, fi)
 			kind := rng.Intn(4)
 			delays := vc45Delays(rng, kind)
-			var out bytes.Buffer
-			var derr error
-			synctest.Test(t, func(t *testing.T) {
-				st.mu.Lock()
-				st.conns, st.delays, st.calls, st.maxPar = conns, delays, 0, 0
-				st.mu.Unlock()
-				d := New(format, st, &out)
-				tree, err := data.LoadTree(context.Background(), st, treeID)
+			out := &bytes.Buffer{}
+			st.mu.Lock()
+			st.conns, st.delays, st.calls, st.maxPar, st.cur = conns, delays, 0, 0, 0
+			st.mu.Unlock()
+			derr, noterm := vc45Guard(t, func(ctx context.Context) error {
+				d := New(format, st, out)
+				tree, err := data.LoadTree(ctx, st, treeID)
 				if err != nil {
-					derr = err
-					return
+					return err
 				}
-				derr = d.DumpTree(context.Background(), tree, root)
+				return d.DumpTree(ctx, tree, root)
 			})
+			if noterm {
+				stuck++
+				out = &bytes.Buffer{} // the leaked dump may still own the buffer
+			}
+			st.mu.Lock()
 			if st.maxPar > maxPar {
 				maxPar = st.maxPar
 			}
+			st.mu.Unlock()
 			errs := ""
 			if derr != nil {
 				errs = "dump: " + derr.Error()
@@ -501,7 +572,7 @@ func TestVerif_C45(t *testing.T) {
 				entries = []vc45Entry{}
 			}
 			recs.Write(map[string]any{"fmt": format, "cls": cls, "prefix": prefix, "nodes": shuffled, "entries": entries, "err": errs,
-				"conns": conns, "delays": kind, "tree": ti})
+				"conns": conns, "delays": kind, "tree": ti, "noterm": noterm})
 			res.Case(fmt.Sprintf("%s|%s|%d|%d|%s", treeID.Str(), format, conns, kind, root), multi)
 			res.Count("entries_parsed_"+format, len(entries))
 			if ti == 3 {
@@ -515,37 +586,45 @@ func TestVerif_C45(t *testing.T) {
 				continue
 			}
 			nf++
-			conns := []uint{1, 2, 3, 5}[rng.Intn(4)]
+			conns := vc45Conns(rng, ti, 2+nf)
 			kind := 1 + rng.Intn(3)
 			delays := vc45Delays(rng, kind)
-			var out bytes.Buffer
-			var derr error
+			out := &bytes.Buffer{}
 			dn, err := vc45DataNode(n, bl, st)
 			if err != nil {
 				res.Problem("node: %v", err)
 				continue
 			}
 			dn.Path = path.Join(root, path.Join(n.Names...))
-			synctest.Test(t, func(t *testing.T) {
-				st.mu.Lock()
-				st.conns, st.delays, st.calls, st.maxPar = conns, delays, 0, 0
-				st.mu.Unlock()
-				d := New("tar", st, &out)
-				derr = d.WriteNode(context.Background(), dn)
+			st.mu.Lock()
+			st.conns, st.delays, st.calls, st.maxPar, st.cur = conns, delays, 0, 0, 0
+			st.mu.Unlock()
+			derr, noterm := vc45Guard(t, func(ctx context.Context) error {
+				d := New("tar", st, out)
+				return d.WriteNode(ctx, dn)
 			})
+			written := []int{}
+			if noterm {
+				stuck++
+			} else {
+				written = bl.tokens(out.Bytes())
+			}
+			st.mu.Lock()
 			if st.maxPar > maxPar {
 				maxPar = st.maxPar
 			}
+			st.mu.Unlock()
 			errs := ""
 			if derr != nil {
 				errs = "dump: " + derr.Error()
 			}
-			recs.Write(map[string]any{"fmt": "file", "cls": "plain", "content": n.Content, "out": bl.tokens(out.Bytes()), "err": errs, "conns": conns, "delays": kind, "tree": ti})
+			recs.Write(map[string]any{"fmt": "file", "cls": "plain", "content": n.Content, "out": written, "err": errs, "conns": conns, "delays": kind, "tree": ti, "noterm": noterm})
 			res.Case(fmt.Sprintf("file|%v|%d|%d", n.Content, conns, kind), len(n.Content) >= 2)
 			res.Count("files_dumped", 1)
 		}
 	}
 	res.Count("max_parallel_blob_loads", maxPar)
 	res.Count("trees", ntrees)
+	res.Count("dumps_that_did_not_terminate", stuck)
 	res.Save("")
 }
